@@ -32,6 +32,9 @@ FUNCS = [
 
 def jobs(tier):
     js = [("e1", {"name": k, "registry": "contracts.tis_moves", "key": k, "clause": cl, "cost": cost, "parallel": 12 if cost > 20 else 2}) for k, cl, cost in FUNCS]
+    # zero swaps and the own-ensemble weight are part of C09's statement too: same contracts as C11 / C10
+    js.append(("e1", {"name": "retis_swap_zero", "registry": "contracts.tis_moves", "key": "retis_swap_zero", "clause": "zero swap: ACC => valid, old paths untouched", "cost": 60, "parallel": 12, "cases": ["plain"]}))
+    js.append(("e1", {"name": "calc_cv_vector", "registry": "contracts.tis_wf", "key": "calc_cv_vector", "clause": "accepted path has non-zero weight in its own ensemble (crossing <=> weight 1)", "cost": 5, "parallel": 4}))
     js.append(("py", {"name": "native_crosscheck", "module": "props.C09", "fn": "native_crosscheck"}))
     return js
 
